@@ -217,6 +217,42 @@ def check_history(ctx, case):
     ctx.note_case(bool(flags) and len(ops) >= 2, ["history:" + f for f in sorted(flags)] + ["instr:" + kind])
 
 
+# ---- range check on every content form ------------------------------------------------------------------
+
+def check_range_forms(ctx, case):
+    """one out-of-range note anywhere in the content (first, middle, last; in a list, or in a container whose notes were edited
+    or replaced after it was built, so that it is no longer sorted) is refused with the range error and changes nothing"""
+    kind, pos, how = case
+    lo, hi, _ = RANGES[kind]
+    good = [p for p in (hi - 20, hi - 12, hi - 5) if lo <= p <= hi]
+    bad_pitch = hi + 7 if how != "low" else lo - 3
+    if bad_pitch < 0:
+        ctx.note_case(False, ["range-forms:skipped"])
+        return
+    notes = [Note().from_int(p) for p in good]
+    bad = Note().from_int(bad_pitch)
+    track = Track(_instr(kind))
+    track.add_notes("C-4" if lo <= 48 <= hi else Note().from_int(lo + 1), 4)
+    before = mg.track_snapshot(track)
+    if how == "list":
+        arg = notes[:pos] + [bad] + notes[pos:]
+    elif how == "setitem":  # a container whose note was replaced afterwards: not sorted any more
+        arg = NoteContainer(notes + [Note().from_int(good[-1] + 2)])
+        arg[pos] = bad
+    elif how == "edited":  # a contained note edited in place
+        arg = NoteContainer(notes + [Note().from_int(good[-1] + 2)])
+        arg[pos].octave = bad.octave
+        arg[pos].name = bad.name
+    else:
+        arg = NoteContainer(notes + [bad])
+    ctx.raises("range/out-of-range", (InstrumentRangeError,), track.add_notes, arg, 4)
+    ctx.check(mg.track_snapshot(track) == before, "range/refused-changed-track", repr(case))
+    if how != "list":  # '+' takes notes, strings, containers and bars, not lists
+        ctx.raises("range/out-of-range", (InstrumentRangeError,), track.__add__, arg)
+        ctx.check(mg.track_snapshot(track) == before, "range/refused-changed-track", repr(case))
+    ctx.note_case(True, ["range-forms:" + how])
+
+
 # ---- from_chords -------------------------------------------------------------------------------------
 
 def _flatten(x, dur, out):
@@ -301,27 +337,41 @@ def check_composition(ctx, case):
     ntracks, ops = case["tracks"], case["ops"]
     comp = Composition()
     tracks = []
-    shadow = []  # per track: list of [what] added
+    models = []  # per track: TrackModel
     sel = []
     flags = set()
     for k, op in enumerate(ops):
         where = "step %d %r" % (k, op)
         name = op[0]
-        if name in ("add_track", "plus_track"):
+        if name in ("add_track", "plus_track", "add_tight_track"):
             if len(tracks) >= ntracks:
                 continue
             t = Track()
-            r = ctx.ok(name, comp.add_track if name == "add_track" else comp.__add__, t)
+            m = TrackModel()
+            if name == "add_tight_track":  # a 3/8 bar holding one quarter: an eighth is free, the bar is not full, a quarter is refused
+                b = Bar("C", (3, 8))
+                b.place_notes("C-4", 4)
+                t.add_bar(b)
+                bm = BarModel([3, 8])
+                bm.place(4, Fr(1, 4), [["C", 4]])
+                m.bars.append([bm, "C"])
+                m.accepted.append([4, [["C", 4]]])
+                m.accepted_len += Fr(1, 4)
+                flags.add("refusing-track")
+            r = ctx.ok(name, comp.__add__ if name == "plus_track" else comp.add_track, t)
             if failed(r):
                 return
             tracks.append(t)
-            shadow.append([])
+            models.append(m)
             sel = [len(tracks) - 1]
             ctx.check(list(comp.selected_tracks) == sel, "composition/selects-new-track", where)
         elif name == "select":
             if not tracks:
                 continue
-            sel = sorted({i % len(tracks) for i in op[1]})
+            sel = []
+            for i in op[1]:  # keep the caller's order, without repeats
+                if i % len(tracks) not in sel:
+                    sel.append(i % len(tracks))
             comp.selected_tracks = list(sel)
             if 0 < len(sel) < len(tracks):
                 flags.add("partial-selection")
@@ -336,14 +386,14 @@ def check_composition(ctx, case):
                 return
             content = content_model(mg.form_notes(form, notes))
             for i, t in enumerate(tracks):
-                after = mg.track_snapshot(t)
                 if i in sel:
-                    shadow[i].append(content)
-                    got = [mg.nc_snapshot(e[2]) for e in t.get_notes()]
-                    ctx.check(got == shadow[i], "composition/selected-track-missed",
-                              lambda: "%s: track %d holds %r, expected %r" % (where, i, got[-3:], shadow[i][-3:]))
+                    models[i].add(4, Fr(1, 4), content)
+                    got = [[e[1], mg.nc_snapshot(e[2])] for e in t.get_notes()]
+                    ctx.check(got == models[i].accepted, "composition/selected-track-missed",
+                              lambda: "%s: track %d holds %r, expected %r" % (where, i, got[-3:], models[i].accepted[-3:]))
                 else:
-                    ctx.check(after == before[i], "composition/unselected-track-changed", lambda: "%s: track %d" % (where, i))
+                    ctx.check([b for b in mg.track_snapshot(t) if b] == [b for b in before[i] if b], "composition/unselected-track-changed",
+                              lambda: "%s: track %d" % (where, i))
         elif name == "bad":
             obj = {"int": 3, "str": "track", "none": None, "note": Note("C", 4), "bar": Bar()}[op[1]]
             n0 = len(comp)
@@ -356,10 +406,10 @@ def check_composition(ctx, case):
     if tracks:
         other = Composition()
         ctx.check(not (comp == other), "composition/equals-empty", "")
-    ctx.note_case(len(tracks) >= 2 and bool(flags), ["composition:%d-tracks" % len(tracks)] + ["composition:" + f for f in flags])
+    ctx.note_case(len(tracks) >= 2 and bool(flags), ["composition:%d-tracks" % len(tracks)] + ["composition:" + f for f in sorted(flags)])
 
 
-CHECKS = {"history": check_history, "from_chords": check_from_chords, "from_chords_tuned": check_from_chords_tuned, "composition": check_composition}
+CHECKS = {"range_forms": check_range_forms, "history": check_history, "from_chords": check_from_chords, "from_chords_tuned": check_from_chords_tuned, "composition": check_composition}
 
 ALPHABET = [
     ["add", "str", [["C", 4]], [4, 0, 1, 1]],
@@ -411,6 +461,12 @@ def sub_random(ctx, shard, n):
     ctx.given("history", check_history, _history_st(), 400 if ctx.quick else 6000)
 
 
+def sub_range_forms(ctx, shard, n):
+    cases = [[k, pos, how] for k in ("generic", "piano", "guitar", "midi") for pos in (0, 1, 2) for how in ("list", "setitem", "edited", "nc", "low")]
+    ctx.exhaustive("out-of-range note at every position of every content form", "4 instruments x 3 positions x 5 forms", len(cases))
+    ctx.enumerate("range_forms", check_range_forms, cases)
+
+
 def sub_fills(ctx, shard, n):
     """every single-value fill of a bar to exact capacity, followed by more items: the next item must open a new bar"""
     cases = []
@@ -459,7 +515,7 @@ def _comp_st():
     form = st.sampled_from(["str", "note", "nc", "bare"])
     notes = st.lists(st.sampled_from(MID_NOTES), min_size=1, max_size=3, unique_by=lambda x: T.pitch(x[0], x[1]))
     op = st.one_of(
-        st.just(["add_track"]), st.just(["plus_track"]),
+        st.just(["add_track"]), st.just(["plus_track"]), st.just(["add_tight_track"]),
         st.tuples(st.just("select"), st.lists(st.integers(0, 7), min_size=0, max_size=4)).map(list),
         st.tuples(st.just("add_note"), form, notes).map(list),
         st.tuples(st.just("plus_note"), form, notes).map(list),
@@ -478,6 +534,7 @@ SUBS = [
     Sub("exhaustive", sub_exhaustive, quick=8, thorough=16),
     Sub("random", sub_random, quick=4, thorough=16),
     Sub("fills", sub_fills, quick=4, thorough=16),
+    Sub("range_forms", sub_range_forms),
     Sub("from_chords", sub_from_chords, quick=1, thorough=4),
     Sub("composition", sub_composition, quick=1, thorough=4),
 ]
